@@ -87,7 +87,7 @@ func newIODelegate(inpath, outpath string) (*ioDelegate, error) {
 		}
 	}
 
-	return &ioDelegate{input, output, nil, false}, nil
+	return &ioDelegate{infile: input, outfile: output}, nil
 }
 
 func (d *ioDelegate) Read(p []byte) (int, error) {
@@ -96,13 +96,21 @@ func (d *ioDelegate) Read(p []byte) (int, error) {
 
 func (d *ioDelegate) Write(p []byte) (int, error) {
 	if d.cache != nil {
-		n, err := d.cache.Write(p)
-		if err != nil {
-			return n, err
+		if _, err := d.cache.Write(p); err != nil {
+			// The cache is an optimisation: when its entry cannot be
+			// written, the run goes on without one.
+			d.dropCache()
 		}
 	}
 	n, err := d.outfile.Write(p)
 	return n, err
+}
+
+// dropCache gives up the entry that is being written.
+func (d *ioDelegate) dropCache() {
+	os.Remove(d.cache.Name())
+	d.cache.Discard()
+	d.cache = nil
 }
 
 func (d *ioDelegate) TryCache(h hash.Hash, data []byte) (bool, error) {
@@ -158,8 +166,12 @@ func (d *ioDelegate) TryCache(h hash.Hash, data []byte) (bool, error) {
 	f, err := cache.Open(dir, h, rsum, dsum)
 	if err != nil {
 		f, err := cache.CreateLevel(dir, h, rsum, dsum, flate.BestSpeed)
-		if err != nil && f != nil {
-			os.Remove(f.Name())
+		if err != nil {
+			if f != nil {
+				os.Remove(f.Name())
+				f.Discard()
+			}
+			return false, nil
 		}
 		d.cache = f
 		return false, nil
